@@ -23,6 +23,9 @@ type Decoder struct {
 	indexVolume volume
 
 	fileData [][]byte
+	// fileEntries[i] is the index volume entry that fileData[i]
+	// belongs to (entries not saved in the volume set are skipped).
+	fileEntries []fileEntry
 
 	shardByteCount int
 	parityData     [][]byte
@@ -97,7 +100,7 @@ func newDecoder(fileIO fileIO, delegate DecoderDelegate, indexFile string) (*Dec
 	return &Decoder{
 		fileIO, delegate,
 		indexFile, indexVolume,
-		nil,
+		nil, nil,
 		0, nil,
 	}, nil
 }
@@ -128,6 +131,7 @@ func (d *Decoder) getFilePath(entry fileEntry) (string, error) {
 // LoadFileData loads existing file data into memory.
 func (d *Decoder) LoadFileData() error {
 	fileData := make([][]byte, 0, len(d.indexVolume.entries))
+	fileEntries := make([]fileEntry, 0, len(d.indexVolume.entries))
 
 	for i, entry := range d.indexVolume.entries {
 		if !entry.header.Status.savedInVolumeSet() {
@@ -153,6 +157,7 @@ func (d *Decoder) LoadFileData() error {
 			return data, false, nil
 		}()
 		d.delegate.OnDataFileLoad(i+1, len(d.indexVolume.entries), path, len(data), corrupt, err)
+		fileEntries = append(fileEntries, entry)
 		if corrupt {
 			fileData = append(fileData, nil)
 			continue
@@ -174,6 +179,7 @@ func (d *Decoder) LoadFileData() error {
 	}
 
 	d.fileData = fileData
+	d.fileEntries = fileEntries
 	return nil
 }
 
@@ -431,7 +437,10 @@ func (d *Decoder) Repair(checkParity bool) ([]string, error) {
 			continue
 		}
 
-		entry := d.indexVolume.entries[i]
+		entry := d.fileEntries[i]
+		if entry.header.FileBytes > uint64(len(shards[i])) {
+			return repairedPaths, errors.New("file byte count exceeds parity data")
+		}
 		data = shards[i][:entry.header.FileBytes]
 		if sixteenKHash(data) != entry.header.SixteenKHash {
 			return repairedPaths, errors.New("hash mismatch (16k) in reconstructed data")
